@@ -37,7 +37,7 @@ COMPONENTS = {
     "stub": ["CAN backend (SimBus)", "can.Notifier", "threading.Condition in canopen.pdo.base (simulator primitive)", "python-can cyclic task (SimCyclicTask)"],
 }
 PROBES = ["tpdo-direction", "rpdo-direction", "config-by-save-read", "colliding-cob-ids", "sub-byte-field", "unaligned-multibyte", "callback", "rtr-sent",
-          "rtr-suppressed", "reconfigured", "frame-on-old-cob-id", "wait-returned", "wait-none", "periodic", "mode-T", "two-waiters", "configuration-reapplied-on-one-side", "node-reattached", "frame-handled-inside-callback"]
+          "rtr-suppressed", "reconfigured", "frame-on-old-cob-id", "wait-returned", "wait-none", "periodic", "mode-T", "two-waiters", "configuration-reapplied-on-one-side", "node-reattached", "frame-handled-inside-callback", "nmt-traffic-of-the-same-node"]
 
 TYPES8 = (odm.UNSIGNED8, odm.INTEGER8, odm.BOOLEAN)
 FULL = [odm.UNSIGNED8, odm.INTEGER8, odm.BOOLEAN, odm.UNSIGNED16, odm.INTEGER16, odm.UNSIGNED24, odm.INTEGER24, odm.UNSIGNED32, odm.INTEGER32,
@@ -539,7 +539,7 @@ def scenario(ctx):
             elif cls == "unaligned-multibyte":
                 ctx.probe("unaligned-multibyte")
             what = "%s%d" % (pair.direction, pair.number)
-            op = ctx.weighted(((8, "tx"), (2, "periodic"), (2, "rtr"), (2, "reconf"), (1, "toggle"), (3, "wait"), (1, "oldcob"), (1, "reattach"), (1, "reentrant")), "op")
+            op = ctx.weighted(((8, "tx"), (2, "periodic"), (2, "rtr"), (2, "reconf"), (1, "toggle"), (3, "wait"), (1, "oldcob"), (1, "reattach"), (1, "reentrant"), (2, "nmt")), "op")
             if op == "tx":
                 assign(ctx, pair, what)
                 transmit_and_check(ctx, w, pairs, pair, what + " transmit")
@@ -575,6 +575,24 @@ def scenario(ctx):
                         newcob += 1     # one producer per COB-ID (collisions are set up on purpose, same direction, same layout)
                 configure(ctx, w, pair, newcob, gen_layout(ctx), enabled=True, rtr=ctx.choice(3, "rtr") != 0, via_save=ctx.choice(3, "viasave") == 0)
                 ctx.probe("reconfigured")
+            elif op == "nmt":
+                # the NMT service of the same node is used next to the PDOs: a boot-up message or heartbeat of the device reaches
+                # the master, or the master sends an NMT command.  PDO frames that are sent afterwards are received as before
+                k = ctx.choice(4, "nmtkind")
+                if k == 0:
+                    w.ch.transmit(w.sbus, 0x700 + w.nid, bytes([(0x00, 0x7F, 0x04, 0x05)[ctx.choice(4, "hbstate")]]), origin="inject")
+                elif k == 1:
+                    call(w.remote.nmt.send_command, (0x80, 0x02, 0x01, 0x82)[ctx.choice(4, "ncs")])
+                elif k == 2:
+                    call(w.mnet.nmt.send_command, (0x80, 0x02, 0x01)[ctx.choice(3, "ncs")])
+                else:
+                    def setstate():
+                        w.local.nmt.state = ("PRE-OPERATIONAL", "STOPPED", "OPERATIONAL")[ctx.choice(3, "lstate")]
+                    call(setstate)
+                ctx.run_for(2 * MS)
+                ctx.probe("nmt-traffic-of-the-same-node")
+                assign(ctx, pair, what)
+                transmit_and_check(ctx, w, pairs, pair, what + " transmit after NMT traffic of the same node")
             elif op == "reentrant":
                 # the consumer's callback calls back into the library: it makes the producer send the NEXT value at once, and with
                 # delivery inside send() that frame is handled while the callback for the first one is still running
